@@ -1,9 +1,16 @@
 // C20 correspondence harness: runs the real tlx/math helpers and tlx::Aggregate<double> on a case file and prints
 // one line per case in the same format as ocaml/C20_driver.ml (see there for the case kinds).  Additionally
+//   valm <fn> <typeN> <typeK> a:b ...     div_ceil / round_up with operands of two different types (result decltype(n + k))
+//   prange <start> b0 b1 ...              popcount(const void*, size_t) on the bytes placed <start> bytes behind an aligned address
+//   agg | aggf | aggi | aggz <ops>         Aggregate<double | float | int | size_t>; besides count/mean/variance/min/max the
+//                                          harness prints sum() and checks every other accessor (avg, average, total, var, stdev,
+//                                          standard_deviation, span, default ddof, serialize + initializing constructor round trip)
+//   type names: u8 i8 u16 i16 u32 i32 u64 (unsigned long) i64 (long) ull (unsigned long long) ll (long long)
 //   sweep32 <start> <stride> <count>      harness-internal sweep of the 32-bit entry points against naive bit-loop
 //                                          references (prints "SWEEP ok ..." or "SWEEP FAIL ...")
 // Inputs on which the C++ code would have undefined behaviour (signed overflow, endless loop) are not executed:
 // the harness prints NA by the predicates documented in coq/C20/Run.v (decided here independently).
+#include <cmath>
 #include <cstdint>
 #include <cstddef>
 #include <cstdio>
@@ -161,8 +168,8 @@ static void eval1(const std::string& fn, const std::string& ty, i128 x)
     if (overload) {
         if (ty == "u32") run1_overload<unsigned, unsigned long, unsigned long long>(fn, x);
         else if (ty == "i32") run1_overload<int, long, long long>(fn, x);
-        else if (ty == "u64") run1_overload<unsigned long, unsigned long, unsigned long long>(fn, x);
-        else if (ty == "i64") run1_overload<long, long, long long>(fn, x);
+        else if (ty == "u64" || ty == "ull") run1_overload<unsigned long, unsigned long, unsigned long long>(fn, x);
+        else if (ty == "i64" || ty == "ll") run1_overload<long, long, long long>(fn, x);
         else put_s("?");
         return;
     }
@@ -174,6 +181,8 @@ static void eval1(const std::string& fn, const std::string& ty, i128 x)
     else if (ty == "i32") run1<std::int32_t>(fn, x);
     else if (ty == "u64") run1<std::uint64_t>(fn, x);
     else if (ty == "i64") run1<std::int64_t>(fn, x);
+    else if (ty == "ull") run1<unsigned long long>(fn, x);
+    else if (ty == "ll") run1<long long>(fn, x);
     else put_s("?");
 }
 
@@ -230,10 +239,71 @@ static void eval2(const std::string& fn, const std::string& ty, i128 a, i128 b)
     else if (ty == "i32") run2<int>(fn, a, b);
     else if (ty == "u64") run2<unsigned long>(fn, a, b);
     else if (ty == "i64") run2<long>(fn, a, b);
+    else if (ty == "ull") run2<unsigned long long>(fn, a, b);
+    else if (ty == "ll") run2<long long>(fn, a, b);
     else put_s("?");
 }
 
-// ---------------------------------------------------------------- Aggregate<double>
+// ---------------------------------------------------------------- two operands of different types
+template <typename TN, typename TK>
+static void run2m(const std::string& fn, i128 av, i128 bv)
+{
+    if (!in_range<TN>(av) || !in_range<TK>(bv) || bv < 1) { put_s("NA"); return; }
+    TN n = static_cast<TN>(av); TK k = static_cast<TK>(bv);
+    typedef decltype(n + k) R;
+    if (fn == "div_ceil") put(tlx::div_ceil(n, k));
+    else if (fn == "round_up") {
+        // the operands as the usual arithmetic conversions see them
+        i128 nn = static_cast<i128>(static_cast<R>(n)), kk = static_cast<i128>(static_cast<R>(k));
+        if (!std::is_signed<R>::value) { nn = static_cast<i128>(static_cast<ull>(static_cast<R>(n))); kk = static_cast<i128>(static_cast<ull>(static_cast<R>(k))); }
+        i128 exact = (nn / kk + ((nn % kk) > 0 ? 1 : 0)) * kk;
+        if (std::is_signed<R>::value && !in_range<R>(exact)) { put_s("NA"); return; }
+        put(tlx::round_up(n, k));
+    }
+    else put_s("?");
+}
+template <typename TN>
+static void run2m_k(const std::string& fn, const std::string& tk, i128 a, i128 b)
+{
+    if (tk == "u8") run2m<TN, std::uint8_t>(fn, a, b);
+    else if (tk == "i8") run2m<TN, std::int8_t>(fn, a, b);
+    else if (tk == "u16") run2m<TN, std::uint16_t>(fn, a, b);
+    else if (tk == "i16") run2m<TN, std::int16_t>(fn, a, b);
+    else if (tk == "u32") run2m<TN, unsigned>(fn, a, b);
+    else if (tk == "i32") run2m<TN, int>(fn, a, b);
+    else if (tk == "u64") run2m<TN, unsigned long>(fn, a, b);
+    else if (tk == "i64") run2m<TN, long>(fn, a, b);
+    else if (tk == "ull") run2m<TN, unsigned long long>(fn, a, b);
+    else if (tk == "ll") run2m<TN, long long>(fn, a, b);
+    else put_s("?");
+}
+static void eval2m(const std::string& fn, const std::string& tn, const std::string& tk, i128 a, i128 b)
+{
+    if (tn == "u8") run2m_k<std::uint8_t>(fn, tk, a, b);
+    else if (tn == "i8") run2m_k<std::int8_t>(fn, tk, a, b);
+    else if (tn == "u16") run2m_k<std::uint16_t>(fn, tk, a, b);
+    else if (tn == "i16") run2m_k<std::int16_t>(fn, tk, a, b);
+    else if (tn == "u32") run2m_k<unsigned>(fn, tk, a, b);
+    else if (tn == "i32") run2m_k<int>(fn, tk, a, b);
+    else if (tn == "u64") run2m_k<unsigned long>(fn, tk, a, b);
+    else if (tn == "i64") run2m_k<long>(fn, tk, a, b);
+    else if (tn == "ull") run2m_k<unsigned long long>(fn, tk, a, b);
+    else if (tn == "ll") run2m_k<long long>(fn, tk, a, b);
+    else put_s("?");
+}
+
+// ---------------------------------------------------------------- byte-range popcount
+static void run_prange(const std::vector<std::string>& tok)
+{
+    size_t start = std::stoul(tok[1]);
+    size_t len = tok.size() - 2;
+    std::vector<std::uint64_t> store((start + len) / 8 + 2, 0xFFFFFFFFFFFFFFFFull);   // 8-byte aligned; surrounding bytes all ones
+    unsigned char* base = reinterpret_cast<unsigned char*>(store.data());
+    for (size_t i = 0; i < len; ++i) base[start + i] = static_cast<unsigned char>(std::stoul(tok[2 + i]));
+    put(tlx::popcount(static_cast<const void*>(base + start), len));
+}
+
+// ---------------------------------------------------------------- Aggregate<Type>
 static double parse_q(const std::string& s)
 {
     size_t p = s.find('/');
@@ -246,22 +316,57 @@ static std::vector<std::string> split(const std::string& s, char c)
     for (char ch : s) { if (ch == c) { r.push_back(cur); cur.clear(); } else cur += ch; }
     r.push_back(cur); return r;
 }
+template <typename T> static T parse_val(const std::string& s) { return static_cast<T>(parse_q(s)); }
+template <> int parse_val<int>(const std::string& s) { return static_cast<int>(std::stol(s)); }
+template <> size_t parse_val<size_t>(const std::string& s) { return static_cast<size_t>(std::stoull(s)); }
+
+static std::string show_val(double v) { char b[64]; snprintf(b, sizeof b, "%.17g", v); return b; }
+static std::string show_val(float v) { char b[64]; snprintf(b, sizeof b, "%.17g", static_cast<double>(v)); return b; }
+static std::string show_val(int v) { return std::to_string(v); }
+static std::string show_val(size_t v) { return std::to_string(v); }
+
+static bool same(double a, double b) { return a == b || (a != a && b != b); }
+
+// archive that records what serialize() passes
+template <typename T>
+struct FieldArchive {
+    size_t count = 0; double mean = 0, nvar = 0; T mn = T(), mx = T(); bool called = false;
+    void operator()(size_t& c, double& m, double& v, T& a, T& b) { count = c; mean = m; nvar = v; mn = a; mx = b; called = true; }
+};
+
+template <typename T>
 static void run_agg(const std::vector<std::string>& toks)
 {
-    typedef tlx::Aggregate<double> A;
+    typedef tlx::Aggregate<T> A;
     A x[3];
     for (size_t t = 1; t < toks.size(); ++t) {
         std::vector<std::string> f = split(toks[t], ',');
-        if (f[0] == "A") x[std::stoi(f[1])].add(parse_q(f[2]));
+        if (f[0] == "A") x[std::stoi(f[1])].add(parse_val<T>(f[2]));
         else if (f[0] == "P") { A r = x[std::stoi(f[2])] + x[std::stoi(f[3])]; x[std::stoi(f[1])] = r; }
         else if (f[0] == "PA") { A& r = (x[std::stoi(f[1])] += x[std::stoi(f[2])]); (void)r; }
         else if (f[0] == "R") x[std::stoi(f[1])] = A();
     }
-    char buf[400];
     for (int i = 0; i < 3; ++i) {
-        snprintf(buf, sizeof buf, "%zu %.17g %.17g %.17g %.17g %.17g%s", x[i].count(), x[i].mean(), x[i].variance(1),
-                 x[i].variance(0), x[i].min(), x[i].max(), i < 2 ? " | " : "");
-        out += buf;
+        A& a = x[i];
+        // every other accessor must be consistent with count / mean / variance / min / max
+        const char* bad = nullptr;
+        if (!same(a.average(), a.mean()) || !same(a.avg(), a.mean())) bad = "avg/average";
+        if (!(a.total() == a.sum())) bad = "total";
+        for (size_t d = 0; d < 2; ++d) {
+            if (!same(a.var(d), a.variance(d))) bad = "var";
+            if (!same(a.standard_deviation(d), std::sqrt(a.variance(d))) || !same(a.stdev(d), std::sqrt(a.variance(d)))) bad = "stdev";
+        }
+        if (!same(a.variance(), a.variance(1)) || !same(a.var(), a.variance(1)) || !same(a.stdev(), a.stdev(1)) ||
+            !same(a.standard_deviation(), a.stdev(1))) bad = "default-ddof";
+        if (a.count() > 0 && !(a.span() == static_cast<T>(a.max() - a.min()))) bad = "span";
+        FieldArchive<T> ar; a.serialize(ar);
+        A copy(ar.count, ar.mean, ar.nvar, ar.mn, ar.mx);
+        if (!ar.called || copy.count() != a.count() || !same(copy.mean(), a.mean()) || !same(copy.variance(1), a.variance(1)) ||
+            !(copy.min() == a.min()) || !(copy.max() == a.max())) bad = "serialize/constructor";
+        const A& o = (i == 1) ? copy : a;      // variable 1 is observed through the reconstructed copy
+        out += std::to_string(o.count()) + " " + show_val(o.mean()) + " " + show_val(o.variance(1)) + " " + show_val(o.variance(0)) +
+               " " + show_val(o.min()) + " " + show_val(o.max()) + " " + show_val(o.sum()) + " " + (bad ? std::string("ACC-DIFF:") + bad : std::string("ACC-OK")) +
+               (i < 2 ? " | " : "");
     }
 }
 
@@ -379,7 +484,17 @@ int main(int argc, char** argv)
                 eval2(tok[1], tok[2], parse_i128(tok[i].substr(0, p)), parse_i128(tok[i].substr(p + 1)));
             }
         }
-        else if (tok[0] == "agg") run_agg(tok);
+        else if (tok[0] == "valm" && tok.size() >= 4) {
+            for (size_t i = 4; i < tok.size(); ++i) {
+                size_t p = tok[i].find(':');
+                eval2m(tok[1], tok[2], tok[3], parse_i128(tok[i].substr(0, p)), parse_i128(tok[i].substr(p + 1)));
+            }
+        }
+        else if (tok[0] == "prange" && tok.size() >= 2) run_prange(tok);
+        else if (tok[0] == "agg") run_agg<double>(tok);
+        else if (tok[0] == "aggf") run_agg<float>(tok);
+        else if (tok[0] == "aggi") run_agg<int>(tok);
+        else if (tok[0] == "aggz") run_agg<size_t>(tok);
         else if (tok[0] == "sweep32" && tok.size() == 4) sweep32(std::stoull(tok[1]), std::stoull(tok[2]), std::stoull(tok[3]));
         else out = "?";
         while (!out.empty() && out.back() == ' ') out.pop_back();
